@@ -425,6 +425,10 @@ func (pkgGen *HttpPackageGenerator) genRouter(pkg *HttpPackage, root *RouterNode
 	if len(handlerMap) != 0 {
 		router.HandlerPackages = handlerMap
 	}
+	if len(root.Children) == 0 {
+		// no route refers to a handler: importing the handler package would be an unused import
+		router.HandlerPackages = map[string]string{}
+	}
 
 	if pkgGen.SnakeStyleMiddleware { // unique middleware name for SnakeStyleMiddleware
 		mws := []string{}
